@@ -569,6 +569,33 @@ func checkC19(c *Ctx) Meta {
 	}
 
 	// ---- EXIST: lookups return a bucket only when its index entry was read successfully
+	// the deletion batch is only added to and written
+	{
+		var bad []string
+		n := 0
+		for fn := range c.AllFuncs {
+			if pkgOf(fn) != pkgLDB {
+				continue
+			}
+			allInstrs(fn, func(in ssa.Instruction) {
+				id := calleeID(in)
+				if !strings.Contains(id, "leveldb.Batch).") {
+					return
+				}
+				n++
+				m := id[strings.LastIndex(id, ".")+1:]
+				if m != "Delete" && m != "Put" && m != "Len" {
+					bad = append(bad, fn.Name()+": Batch."+m+" at "+c.Pos(in.Pos()))
+				}
+			})
+		}
+		sort.Strings(bad)
+		if len(bad) > 0 {
+			c.Bad("C19-PREFIX", "deletion-batch-only-grows", "", strings.Join(bad, "; ")+": entries queued for deletion (e.g. those of nested buckets) are dropped from the batch, so they survive the bucket's deletion and reappear in a bucket re-created under the same name")
+		} else if n > 0 {
+			c.OK("C19-PREFIX", "deletion-batch-only-grows", "", fmt.Sprintf("%d batch operations, all Delete/Put", n))
+		}
+	}
 	c.Rule("C19-EXIST", "bucket lookups (FetchBucket, TopLevelBucket, Bucket of both transaction kinds) return a bucket only on the success edge of the read of its index entry: a bucket that was never created, was rolled back or was deleted does not resolve", 6)
 	for _, name := range []string{"(*LDBTransaction).FetchBucket", "(*LDBTransaction).TopLevelBucket", "(*LDBBucket).Bucket", "(*LDBReadTransaction).FetchBucket", "(*LDBReadTransaction).TopLevelBucket", "(*LDBReadBucket).Bucket"} {
 		f := c.MustFn("C19-EXIST", "poc/wallet/db/ldb", name)
